@@ -197,6 +197,9 @@ type Sim struct {
 	Progress map[string]bool // effects that count as loop progress
 	// FieldVals binds reads of struct-value fields (*ssa.Field) to abstract values.
 	FieldVals map[*types.Var]AV
+	// TrackLens enables a three-valued length abstraction (0, 1, >=2) of local slices
+	// through make/append/len.
+	TrackLens bool
 	MaxNodes int
 
 	// results of the last Run (top-level function only)
@@ -292,6 +295,27 @@ func allocTrackable(a *ssa.Alloc) bool {
 			}
 		case *ssa.DebugRef:
 		case *ssa.MakeClosure:
+			// a closure that only reads the captured variable cannot change the cell
+			readOnly := false
+			if fn, ok := r.Fn.(*ssa.Function); ok {
+				for i, bnd := range r.Bindings {
+					if bnd == ssa.Value(a) && i < len(fn.FreeVars) {
+						readOnly = true
+						for _, fr := range *fn.FreeVars[i].Referrers() {
+							if ld, ok := fr.(*ssa.UnOp); ok && ld.Op == token.MUL {
+								continue
+							}
+							if _, ok := fr.(*ssa.DebugRef); ok {
+								continue
+							}
+							readOnly = false
+						}
+					}
+				}
+			}
+			if readOnly {
+				continue
+			}
 			for _, rr := range *r.Referrers() {
 				d, ok := rr.(*ssa.Defer)
 				if !ok || d.Call.Value != r {
@@ -384,6 +408,38 @@ func fieldOfVal(a *ssa.Field) *types.Var {
 }
 
 func foldCompare(op token.Token, x, y AV) AV {
+	// the abstract integer ">= 2" against a constant
+	if x.K == avSym && x.S == "int>=2" && y.K == avConst && y.C.Kind() == constant.Int {
+		if c, ok := constant.Int64Val(y.C); ok {
+			switch op {
+			case token.GTR:
+				if c <= 1 {
+					return avBool(true)
+				}
+			case token.GEQ:
+				if c <= 2 {
+					return avBool(true)
+				}
+			case token.LSS:
+				if c <= 2 {
+					return avBool(false)
+				}
+			case token.LEQ:
+				if c <= 1 {
+					return avBool(false)
+				}
+			case token.EQL:
+				if c < 2 {
+					return avBool(false)
+				}
+			case token.NEQ:
+				if c < 2 {
+					return avBool(true)
+				}
+			}
+		}
+		return top
+	}
 	isNilish := func(a AV) (nilv, known bool) {
 		switch a.K {
 		case avNil:
@@ -635,6 +691,15 @@ func (s *Sim) execBlock(rc *runCtx, it workItem) []workItem {
 		case *ssa.Panic:
 			s.addOutcome(rc, Outcome{St: st, Panic: true, Pos: x.Pos()})
 			return nil
+		case *ssa.MakeSlice:
+			if s.TrackLens {
+				if c, ok := constInt(x.Len); ok && c >= 0 {
+					if c > 2 {
+						c = 2
+					}
+					st.vals[x] = avSymbol(fmt.Sprintf("len:%d", c))
+				}
+			}
 		case *ssa.Field:
 			if a, ok := s.FieldVals[fieldOfVal(x)]; ok && a.K != avTop {
 				st.vals[x] = a
@@ -905,6 +970,55 @@ func (s *Sim) doCall(rc *runCtx, it workItem, st *State, call ssa.CallInstructio
 	if s.Model != nil {
 		if outs := s.Model(s, st, call, callee); outs != nil {
 			return outs
+		}
+	}
+	if s.TrackLens {
+		if b, ok := call.Common().Value.(*ssa.Builtin); ok {
+			args := call.Common().Args
+			lenOf := func(v ssa.Value) int {
+				a := s.eval(st, v)
+				switch {
+				case a.K == avNil:
+					return 0
+				case a.K == avSym && strings.HasPrefix(a.S, "len:"):
+					return int(a.S[4] - '0')
+				}
+				return -1
+			}
+			switch b.Name() {
+			case "append":
+				k := lenOf(args[0])
+				n := -1
+				if len(args) > 1 {
+					if sl, ok := args[1].(*ssa.Slice); ok {
+						if al, ok := sl.X.(*ssa.Alloc); ok {
+							if arr, ok := al.Type().Underlying().(*types.Pointer).Elem().Underlying().(*types.Array); ok && sl.Low == nil && sl.High == nil {
+								n = int(arr.Len())
+							}
+						}
+					}
+				}
+				if k >= 0 && n >= 0 {
+					t := k + n
+					if t > 2 {
+						t = 2
+					}
+					SetCallResult(st, call, avSymbol(fmt.Sprintf("len:%d", t)))
+					return []*State{st}
+				}
+			case "len":
+				switch lenOf(args[0]) {
+				case 0:
+					SetCallResult(st, call, avInt(0))
+					return []*State{st}
+				case 1:
+					SetCallResult(st, call, avInt(1))
+					return []*State{st}
+				case 2:
+					SetCallResult(st, call, avSymbol("int>=2"))
+					return []*State{st}
+				}
+			}
 		}
 	}
 	if callee != nil && callee.Blocks != nil && s.Inline != nil && s.Inline(callee) {
